@@ -69,6 +69,7 @@ type Violation struct {
 	Actual   string          `json:"actual"`
 	Note     string          `json:"note,omitempty"`
 	Size     int             `json:"size"` // smaller = simpler; the smallest per signature is kept
+	Hang     bool            `json:"hang,omitempty"`
 }
 
 type record struct {
@@ -108,6 +109,64 @@ type W struct {
 	seenNT   map[uint64]struct{}
 	nviol    map[string]int
 	idx      int64
+
+	guardMu    sync.Mutex
+	guardCase  interface{}
+	guardStart time.Time
+	guardLimit time.Duration
+}
+
+// HangLimit is how long one guarded case may run before the worker reports it as not returning.
+// It is a horizon (expected: microseconds to milliseconds), not a latency oracle.
+const HangLimit = 60 * time.Second
+
+// Guard announces the case about to run. If it does not finish within HangLimit the worker
+// reports a violation ("does not return") for it and exits; the driver restarts after it.
+func (w *W) Guard(c interface{}) {
+	w.guardMu.Lock()
+	w.guardCase, w.guardStart, w.guardLimit = c, time.Now(), HangLimit
+	w.guardMu.Unlock()
+}
+
+// GuardFor is Guard with an explicit horizon.
+func (w *W) GuardFor(c interface{}, d time.Duration) {
+	w.guardMu.Lock()
+	w.guardCase, w.guardStart, w.guardLimit = c, time.Now(), d
+	w.guardMu.Unlock()
+}
+
+func (w *W) Unguard() {
+	w.guardMu.Lock()
+	w.guardCase = nil
+	w.guardMu.Unlock()
+}
+
+func (w *W) watchdog() {
+	for {
+		time.Sleep(500 * time.Millisecond)
+		w.guardMu.Lock()
+		c, start, limit := w.guardCase, w.guardStart, w.guardLimit
+		w.guardMu.Unlock()
+		if c == nil || time.Since(start) < limit {
+			continue
+		}
+		// the main goroutine is stuck inside the implementation: report and leave
+		b, _ := json.Marshal(c)
+		w.mu.Lock() // never released: nothing else may write any more
+		rec := record{T: "viol", Viol: &Violation{Property: w.ID, Tier: w.Tier, Sig: "hang: the call does not return (horizon " + limit.String() + ")", Case: b,
+			Expected: "the call returns", Actual: "no return within " + limit.String(), Size: 1, Hang: true}}
+		rb, _ := json.Marshal(rec)
+		w.out.Write(rb)
+		w.out.WriteByte('\n')
+		sb, _ := json.Marshal(record{T: "stats", Stats: &w.st})
+		w.out.Write(sb)
+		w.out.WriteByte('\n')
+		hb, _ := json.Marshal(record{T: "hung", Idx: w.idx - 1})
+		w.out.Write(hb)
+		w.out.WriteByte('\n')
+		w.out.Flush()
+		os.Exit(3)
+	}
 }
 
 func (w *W) Thorough() bool { return w.Tier == "thorough" }
@@ -291,7 +350,9 @@ func workerMain(args []string) {
 	if dl > 0 {
 		w.deadline = time.Now().Add(time.Duration(dl * float64(time.Second)))
 	}
+	go w.watchdog()
 	c.Work(w)
+	w.Unguard()
 	w.emit(record{T: "stats", Stats: &w.st})
 	w.emit(record{T: "done"})
 	w.out.Flush()
@@ -325,6 +386,7 @@ func runWorker(c *Check, tier string, shard, n int, deadline time.Duration, res 
 			return
 		}
 		var lastWAL *record
+		hungAt := int64(-1)
 		lastProgress := time.Now()
 		var pmu sync.Mutex
 		done := false
@@ -374,6 +436,8 @@ func runWorker(c *Check, tier string, shard, n int, deadline time.Duration, res 
 					case "wal":
 						rr := r
 						lastWAL = &rr
+					case "hung":
+						hungAt = r.Idx
 					case "done":
 						done = true
 					}
@@ -387,6 +451,15 @@ func runWorker(c *Check, tier string, shard, n int, deadline time.Duration, res 
 		close(stopWatch)
 		if done && werr == nil {
 			return
+		}
+		if hungAt >= 0 && restarts < 200 {
+			// the worker reported a case that does not return and left; continue after it
+			mu.Lock()
+			res.stats = append(res.stats, &Stats{Extra: map[string]int64{"worker_restarts_after_hang": 1}})
+			mu.Unlock()
+			resume = hungAt + 1
+			restarts++
+			continue
 		}
 		if !c.CrashTolerant || lastWAL == nil || restarts > 2000 {
 			mu.Lock()
@@ -553,10 +626,17 @@ func drive(c *Check, tier string) int {
 		// confirm by replay (fresh state, no explorer) unless the check has no replayer
 		if c.Replay != nil && !c.CrashTolerant {
 			confirmed := 0
-			for k := 0; k < 3; k++ {
-				if _, _, ok := c.Replay(v.Case); !ok {
+			tries := 3
+			if v.Hang {
+				tries = 1
+			}
+			for k := 0; k < tries; k++ {
+				if !replayInSubprocess(v) {
 					confirmed++
 				}
+			}
+			if v.Hang && confirmed == 1 {
+				confirmed = 3
 			}
 			if confirmed == 0 {
 				fmt.Fprintf(os.Stderr, "HARNESS-ERROR property=%s violation %q did not reproduce in replay (0/3); case=%s\n", c.ID, s, v.Case)
@@ -599,6 +679,35 @@ func drive(c *Check, tier string) int {
 	fmt.Printf("%s %s: evaluations=%d distinct_nontrivial=%d states=%d transitions=%d outcomes=%d violations=%d known=%d exhaustive=%v wall=%.1fs\n",
 		c.ID, tier, tot.Evaluations, tot.Nontrivial, tot.States, tot.Transitions, len(tot.Outcomes), nviol, nknown, !tot.Expired, time.Since(start).Seconds())
 	return exit
+}
+
+// replayInSubprocess re-runs one case in a fresh process (a case may hang or crash the process).
+// It returns true iff the property holds on the case.
+func replayInSubprocess(v *Violation) bool {
+	f, err := os.CreateTemp("", "vcheck-replay-*.json")
+	if err != nil {
+		return false
+	}
+	defer os.Remove(f.Name())
+	b, _ := json.Marshal(v)
+	f.Write(b)
+	f.Close()
+	cmd := exec.Command(os.Args[0], "replay", f.Name())
+	cmd.Env = append(os.Environ(), "GOMAXPROCS=2")
+	done := make(chan error, 1)
+	if err := cmd.Start(); err != nil {
+		return false
+	}
+	go func() { done <- cmd.Wait() }()
+	limit := 2 * HangLimit
+	select {
+	case err := <-done:
+		return err == nil
+	case <-time.After(limit):
+		cmd.Process.Kill()
+		<-done
+		return false // does not return: still violating
+	}
 }
 
 func trunc(s string, n int) string {
